@@ -185,6 +185,9 @@ func printResult(res *RunResult, verbose bool) {
 				b, _ := json.Marshal(g.First.Witness)
 				fmt.Printf("      witness %s\n", b)
 			}
+			if g.First.Where != "" {
+				fmt.Printf("      where %s\n", g.First.Where)
+			}
 			for _, t := range g.First.Trace {
 				fmt.Println("      ", t)
 			}
